@@ -94,9 +94,58 @@ def digest(client, datastore=None):
     return out
 
 
+def grid_config():
+    """A deterministic algorithm whose policy asks the supporter for the trial ids 1..max_trial_id."""
+    sc = vz.StudyConfig(algorithm='GRID_SEARCH')
+    sc.search_space.root.add_discrete_param('x', [1.0, 2.0, 3.0, 4.0])
+    sc.search_space.root.add_categorical_param('c', ['a', 'b', 'c'])
+    sc.metric_information.append(vz.MetricInformation('m', goal=vz.ObjectiveMetricGoal.MAXIMIZE))
+    return sc
+
+
+def build_supporter(case, label):
+    """The policy supporter with the service reference of the deployment: the in-process servicer (L) or a stub (R, P)."""
+    from vizier._src.service import service_policy_supporter
+    method, state = case['method'], set(case.get('state', []))
+    n = next(_counter)
+    owner, sid = 'o', 'sup_%s_%d' % (label, n)
+    name = 'owners/%s/studies/%s' % (owner, sid)
+    client = None
+    if 'missing_study' not in state:
+        study = clients.Study.from_study_config(grid_config(), owner=owner, study_id=sid)
+        client = study._client
+        for t in study.suggest(count=3, client_id='w'):
+            t.complete(vz.Measurement({'m': float(t.id)}))
+        if 'missing_trial' in state:
+            clients.Trial(client, 2).delete()                      # a gap below the maximal trial id
+    sup = service_policy_supporter.ServicePolicySupporter(name, vizier_client.create_vizier_servicer_or_stub())
+    calls = {
+        'ServicePolicySupporter.GetStudyConfig': lambda: sup.GetStudyConfig(name),
+        'ServicePolicySupporter.GetTrials': lambda: sup.GetTrials(trial_ids=[1, 2, 3]),
+        'ServicePolicySupporter.CheckCancelled': lambda: sup.CheckCancelled(),
+        'ServicePolicySupporter.TimeRemaining': lambda: sup.TimeRemaining(),
+        'ServicePolicySupporter.study_guid': lambda: sup.study_guid,
+    }
+    return calls.get(method), client
+
+
+def build_grid_after_delete(case, label):
+    """Client program: GRID_SEARCH study, three suggestions completed, trial 2 deleted, then the call under test."""
+    n = next(_counter)
+    study = clients.Study.from_study_config(grid_config(), owner='o', study_id='grid_%s_%d' % (label, n))
+    for t in study.suggest(count=3, client_id='w'):
+        t.complete(vz.Measurement({'m': float(t.id)}))
+    clients.Trial(study._client, 2).delete()
+    return (lambda: study.suggest(count=2, client_id='w')), study._client
+
+
 def build(case, label):
     """-> (callable under test, VizierClient for the digest | None)."""
     method, state = case['method'], set(case.get('state', []))
+    if method.startswith('ServicePolicySupporter.'):
+        return build_supporter(case, label)
+    if case.get('variant') == 'grid_after_delete':
+        return build_grid_after_delete(case, label)
     n = next(_counter)
     owner, sid = 'o', '%s_%d' % (label, n)
     sc = study_config()
@@ -201,9 +250,9 @@ def run_case(case, label, datastore=None):
         return {'setup_error': '%s: %s' % (type(e).__name__, str(e)[:300]), 'trace': traceback.format_exc()[-600:]}
     if f is None:
         return {'unsupported': True}
-    before = digest(client, datastore)
+    before = digest(client, datastore) if client is not None else {'unreadable': True}
     res = describe(f)
-    after = digest(client, datastore)
+    after = digest(client, datastore) if client is not None else {'unreadable': True}
     return {'result': res, 'before': before, 'after': after}
 
 
@@ -212,7 +261,7 @@ def main(argv=None):
     ap.add_argument('--cases')
     ap.add_argument('--out')
     ap.add_argument('--case', nargs='+')
-    ap.add_argument('--variant', help='succeeded | twice | after_complete | on_trial')
+    ap.add_argument('--variant', help='succeeded | twice | after_complete | on_trial | grid_after_delete')
     ap.add_argument('--deployments', default='L,R')
     a = ap.parse_args(argv)
     if a.case:
